@@ -43,6 +43,32 @@ vp_memmove(void *dst, const void *src, size_t n)
 }
 #define memmove vp_memmove
 #endif
+#ifdef VP_MEMCPY_HAVOC_OBJECT
+/* same sound over-approximation for memcpy into a heap byte buffer: the whole
+ * destination OBJECT is havocked and only the bytes at the ghost indices are
+ * re-established (nothing may then be concluded about other bytes of it) */
+static inline void *
+vp_memcpy(void *dst, const void *src, size_t n)
+{
+	__CPROVER_assert(__CPROVER_r_ok(src, n), "memcpy source region readable");
+	__CPROVER_assert(__CPROVER_w_ok(dst, n), "memcpy destination region writeable");
+	if (n > 0) {
+		const uint8_t *s = (const uint8_t *) src;
+		uint8_t       *d = (uint8_t *) dst;
+		uint8_t bk = (g_k < n) ? s[g_k] : 0;
+		uint8_t bh = (g_hk < n) ? s[g_hk] : 0;
+		__CPROVER_havoc_object(d);
+		if (g_k < n) {
+			d[g_k] = bk;
+		}
+		if (g_hk < n) {
+			d[g_hk] = bh;
+		}
+	}
+	return (dst);
+}
+#define memcpy vp_memcpy
+#endif
 
 /* Exact byte-loop models, for units where the copy length is bounded by a
  * constant OF THE CODE (the 64-byte message header): with --unwind above that
